@@ -14,6 +14,16 @@ def main():
     if tier not in ("quick", "thorough"):
         tier = "quick"
     seed = int(os.environ.get("VERIF_SEED", "20260923"))
+    if a.replay:
+        import json
+        try:
+            rec = json.load(open(a.replay))
+            tier, seed = rec["tier"], int(rec["seed"])
+            os.environ["VERIF_REPLAY_SIG"] = rec["signature"]
+            os.environ["VERIF_REPLAY_FILE"] = os.path.abspath(a.replay)
+        except Exception as e:
+            sys.stderr.write("cannot read replay file %s: %s\n" % (a.replay, e))
+            sys.exit(2)
     os.environ["VERIF_TIER"] = tier
     os.environ.setdefault("VERIF_PMAP_TIMEOUT", "300" if tier == "quick" else "7200")
     from harness import build
